@@ -140,13 +140,13 @@ theorem c01_tool_path (T : Tables) (env : Env) (tools : List ToolReg) (allowed :
       split
       · rename_i hcap
         have h1 := walkList_confined T env args
-        have h2 := walkToolKws_confined T env kn kv
+        have h2 := walkKws_confined T env kn kv
         rcases hw : walkList T env args with ⟨t1, r1⟩
         rw [hw] at h1
         cases r1 with
         | error er => exact ⟨t1, h1, Or.inl rfl⟩
         | ok as =>
-          rcases hk : walkToolKws T env kn kv with ⟨t2, r2⟩
+          rcases hk : walkKws T env kn kv with ⟨t2, r2⟩
           rw [hk] at h2
           cases r2 with
           | error er =>
@@ -162,6 +162,34 @@ theorem c01_tool_path (T : Tables) (env : Env) (tools : List ToolReg) (allowed :
       · exact ⟨[], by simp, Or.inl rfl⟩
   · exact ⟨[], by simp, Or.inl rfl⟩
   · exact ⟨[], by simp, Or.inl rfl⟩
+
+/-- Star-star unpacking in a tool call is refused, never dropped: with a `**mapping` argument among the keywords the
+    tool pathway fails and the tool body does not run (every action that did happen is a walker action). -/
+theorem c01_tool_call_with_unpacking_refused (T : Tables) (env : Env) (tools : List ToolReg)
+    (allowed : Option (List String)) (f : Expr) (args kv : List Expr) (kn : List (Option String))
+    (hs : none ∈ kn) (hl : kn.length = kv.length) :
+    (toolPath T env tools allowed (.call f args kn kv)).failed ∧
+    ∀ a ∈ (toolPath T env tools allowed (.call f args kn kv)).1, Allowed T env a := by
+  unfold toolPath
+  split
+  · rename_i tn args' kn' kv' heq
+    cases heq
+    split
+    · exact ⟨failed_fail _, by simp⟩
+    · split
+      · refine ⟨bind_failed_right _ _ fun as => bind_failed_left _ _ (walkKws_star_fails T env kn kv hs hl), ?_⟩
+        refine bind_all' _ _ _ (walkList_confined T env args) fun as _ => ?_
+        have hk := walkKws_star_fails T env kn kv hs hl
+        obtain ⟨er, he⟩ := hk
+        rcases hw : walkKws T env kn kv with ⟨t2, r2⟩
+        have h2 := walkKws_confined T env kn kv
+        rw [hw] at h2 he
+        simp only at he
+        subst he
+        simpa [R.bind] using h2
+      · exact ⟨failed_fail _, by simp⟩
+  · exact ⟨failed_fail _, by simp⟩
+  · exact ⟨failed_fail _, by simp⟩
 
 /-- The same for what `metabolize` actually dispatches to (`toolPathway` = tree-level repeated-keyword check, then
     `toolPath`): the check only adds a failure that executes nothing. -/
@@ -291,6 +319,10 @@ example : (⟨10000, false, false, [], none, Gen.printInTry, Gen.dispatchInTry, 
 
 /-- `c01_total_legacy`: the flags as extracted from the current source -/
 example : Gen.strGuarded = true ∧ Gen.printInTry = true ∧ Gen.dispatchInTry = true := by decide
+
+/-- `c01_tool_call_with_unpacking_refused`: `echo(**{'a': 1})` — one keyword, no name, equal lengths -/
+example : none ∈ [(none : Option String)] ∧ [(none : Option String)].length = [Expr.other "Dict" []].length := by
+  decide
 
 /-- `c01_tool_path` second alternative is reachable: a registered tool runs exactly once, last -/
 example : (toolPath Gen.tables envAll [⟨"t", []⟩] none (.call (.name "t") [.name "pi"] [] [])).1
